@@ -379,7 +379,7 @@ class Run:
             self.violations.append(('', note))
             return
         path = d / f'{self.pid}_{self.tier}_{self.seed}_{n}.json'
-        replay = dict(property=self.pid, note=note, **replay)
+        replay = dict(property=self.pid, note=note, **{k: v for k, v in replay.items() if k not in ('property', 'note')})
         path.write_text(json.dumps(replay, indent=1, default=str))
         self.violations.append((str(path), note))
         tail = ' no-failing-input-found' if no_input else ''
